@@ -18,6 +18,7 @@ are already sorted.  Side conditions on the GENERATED tables are collected in `I
 -/
 import SpecModel.Codec.NoDup
 import SpecModel.Codec.SortLemmas
+import SpecModel.Codec.UrlIdem
 
 namespace SpecModel.Codec
 open SpecModel
@@ -33,10 +34,6 @@ vendor extension (`strings.HasPrefix(strings.ToLower(k), "x-")`) it is spelled w
 def NameOK (k : String) : Prop :=
   (∀ n ∈ keywordList, foldName k = foldName n → k = n) ∧ (isExtKey k = true → hasXPrefix k = true)
 
-/-- a `$ref` / `$schema` member holds a text that the URL printing model leaves alone -/
-def RefTextOK (k : String) (v : Json) : Prop :=
-  (k = "$ref" ∨ k = "$schema") → ∀ t, v = .str t → urlString t = .ok t
-
 mutual
   def Clean : Json → Prop
     | .num n => n.natAbs ≤ floatExact
@@ -48,19 +45,19 @@ mutual
     | x :: xs => Clean x ∧ CleanL xs
   def CleanM : List (String × Json) → Prop
     | [] => True
-    | (k, v) :: rest => NameOK k ∧ v ≠ .null ∧ RefTextOK k v ∧ Clean v ∧ CleanM rest
+    | (k, v) :: rest => NameOK k ∧ v ≠ .null ∧ Clean v ∧ CleanM rest
 end
 
 theorem cleanM_iff {ms : List (String × Json)} :
-    CleanM ms ↔ ∀ m ∈ ms, NameOK m.1 ∧ m.2 ≠ .null ∧ RefTextOK m.1 m.2 ∧ Clean m.2 := by
+    CleanM ms ↔ ∀ m ∈ ms, NameOK m.1 ∧ m.2 ≠ .null ∧ Clean m.2 := by
   induction ms with
   | nil => simp [CleanM]
   | cons a rest ih =>
     obtain ⟨k, v⟩ := a
     simp only [CleanM, ih, List.mem_cons, forall_eq_or_imp]
     constructor
-    · rintro ⟨h1, h2, h3, h4, h5⟩; exact ⟨⟨h1, h2, h3, h4⟩, h5⟩
-    · rintro ⟨⟨h1, h2, h3, h4⟩, h5⟩; exact ⟨h1, h2, h3, h4, h5⟩
+    · rintro ⟨h1, h2, h3, h5⟩; exact ⟨⟨h1, h2, h3⟩, h5⟩
+    · rintro ⟨⟨h1, h2, h3⟩, h5⟩; exact ⟨h1, h2, h3, h5⟩
 
 theorem cleanL_iff {xs : List Json} : CleanL xs ↔ ∀ x ∈ xs, Clean x := by
   induction xs with
@@ -204,7 +201,7 @@ theorem clean_arr {ys : List Json} (h : Clean (.arr ys)) : ∀ y ∈ ys, Clean y
   simpa [Clean] using cleanL_iff.mp (by simpa [Clean] using h)
 
 theorem clean_obj {ys : List (String × Json)} (h : Clean (.obj ys)) :
-    ∀ m ∈ ys, NameOK m.1 ∧ m.2 ≠ .null ∧ RefTextOK m.1 m.2 ∧ Clean m.2 := by
+    ∀ m ∈ ys, NameOK m.1 ∧ m.2 ≠ .null ∧ Clean m.2 := by
   simpa [Clean] using cleanM_iff.mp (by simpa [Clean] using h)
 
 theorem ptrTo_fixed {rec : Rec} (hr : RecGood rec) (t : Target) {x y : Json} (h : ptrTo rec t x = .ok y)
@@ -298,7 +295,7 @@ theorem normFT_fixed {rec : Rec} (hr : RecGood rec) (ft : FT) (v r : Json) (h : 
     · simp at h
     · rename_i ys hys; simp only [pure, Except.pure, Except.ok.injEq] at h; subst h
       have := mapMembersR_second hys (fun x y hx _ _ => strElem_fixed hx)
-        (fun m hm => ⟨(clean_obj hc m hm).2.2.2, (clean_obj hc m hm).2.1⟩)
+        (fun m hm => ⟨(clean_obj hc m hm).2.2, (clean_obj hc m hm).2.1⟩)
       simp [normFT, this, bind, Except.bind, pure, Except.pure]
   -- anyMap
   · simp only [bind, Except.bind] at h
@@ -332,7 +329,7 @@ theorem normFT_fixed {rec : Rec} (hr : RecGood rec) (ft : FT) (v r : Json) (h : 
     · simp at h
     · rename_i ys hys; simp only [pure, Except.pure, Except.ok.injEq] at h; subst h
       have := mapMembersR_second hys (fun x y hx hy _ => hr.idem _ x y hx hy)
-        (fun m hm => ⟨(clean_obj hc m hm).2.2.2, (clean_obj hc m hm).2.1⟩)
+        (fun m hm => ⟨(clean_obj hc m hm).2.2, (clean_obj hc m hm).2.1⟩)
       simp [normFT, this, bind, Except.bind, pure, Except.pure]
   -- ptrNamed
   · have := hr.idem _ _ _ h hc
@@ -343,7 +340,7 @@ theorem normFT_fixed {rec : Rec} (hr : RecGood rec) (ft : FT) (v r : Json) (h : 
     · simp at h
     · rename_i ys hys; simp only [pure, Except.pure, Except.ok.injEq] at h; subst h
       have := mapMembersR_second hys (fun x y hx hy _ => hr.idem _ x y hx hy)
-        (fun m hm => ⟨(clean_obj hc m hm).2.2.2, (clean_obj hc m hm).2.1⟩)
+        (fun m hm => ⟨(clean_obj hc m hm).2.2, (clean_obj hc m hm).2.1⟩)
       simp [normFT, this, bind, Except.bind, pure, Except.pure]
   -- named
   · have := hr.idem _ _ _ h hc
@@ -354,7 +351,7 @@ theorem normFT_fixed {rec : Rec} (hr : RecGood rec) (ft : FT) (v r : Json) (h : 
     · simp at h
     · rename_i ys hys; simp only [pure, Except.pure, Except.ok.injEq] at h; subst h
       have := mapMembersR_second hys (fun x y hx hy hn' => ptrTo_fixed hr _ hx hy hn')
-        (fun m hm => ⟨(clean_obj hc m hm).2.2.2, (clean_obj hc m hm).2.1⟩)
+        (fun m hm => ⟨(clean_obj hc m hm).2.2, (clean_obj hc m hm).2.1⟩)
       simp [normFT, this, bind, Except.bind, pure, Except.pure]
 
 
@@ -752,7 +749,7 @@ mutual
     | [], _ => ⟨[], rfl⟩
     | (k, v) :: rest, h => by
         have h' : Clean v ∧ CleanM rest := by
-          simp only [CleanM] at h; exact ⟨h.2.2.2.1, h.2.2.2.2⟩
+          simp only [CleanM] at h; exact ⟨h.2.2.1, h.2.2.2⟩
         obtain ⟨w, hw⟩ := normAny_total v h'.1
         obtain ⟨acc, hacc⟩ := normAnyMembers_total rest h'.2
         exact ⟨insertKeep k w acc, by simp [normAnyMembers, hw, hacc, bind, Except.bind, pure, Except.pure]⟩
@@ -850,7 +847,7 @@ theorem cleanM_names {out : List (String × Json)} (h : CleanM out) : ∀ m ∈ 
   fun m hm => (cleanM_iff.mp h m hm).1
 
 theorem cleanM_vals {out : List (String × Json)} (h : CleanM out) : ∀ m ∈ out, Clean m.2 ∧ m.2 ≠ .null :=
-  fun m hm => ⟨(cleanM_iff.mp h m hm).2.2.2, (cleanM_iff.mp h m hm).2.1⟩
+  fun m hm => ⟨(cleanM_iff.mp h m hm).2.2, (cleanM_iff.mp h m hm).2.1⟩
 
 theorem mem_keysOf {ms : List (String × Json)} {m : String × Json} (h : m ∈ ms) : m.1 ∈ keysOf ms := by
   simp only [keysOf, List.mem_map]; exact ⟨m, h, rfl⟩
@@ -932,12 +929,28 @@ theorem normExtensions_second {j : Json} {b out : List (String × Json)} (h : no
       (by rw [← h]; intro m hm; exact (List.mem_filter.mp hm).2) hown
     simp [normExtensions, genericMap, hd, bind, Except.bind, pure, Except.pure, this]
 
+/-- the text `Ref.MarshalJSON` prints is one the URL printing model leaves alone (`urlString_idem`): this is what
+the hypothesis `RefTextOK` of earlier versions of `Clean` asked of the output -/
+theorem refOfMap_shape_fixed {strict : Bool} {d out : List (String × Json)} (h : refOfMap strict d = .ok out) :
+    out = [] ∨ ∃ t, out = [("$ref", .str t)] ∧ urlString t = .ok t := by
+  unfold refOfMap at h
+  split at h
+  · split at h
+    · rename_i hus
+      simp only [pure, Except.pure, Except.ok.injEq] at h
+      exact .inr ⟨_, h.symm, urlString_idem hus⟩
+    · split at h
+      · simp [goError] at h
+      · simp [pure, Except.pure] at h; exact .inl h
+    · simp [outOfModel] at h
+  · simp [pure, Except.pure] at h; exact .inl h
+
 theorem str_goAny_fixed (t : String) : normAny (.str t) = .ok (.str t) := rfl
 
 theorem refOfMap_second {strict : Bool} {d0 b out d : List (String × Json)} (h : refOfMap strict d0 = .ok b)
     (hout : (keysOf out).Nodup) (hclean : CleanM out) (hd : normAnyMembers out = .ok d)
     (hbsub : ∀ m ∈ b, m ∈ out) (hown : ∀ m ∈ out, m.1 = "$ref" → m ∈ b) : refOfMap strict d = .ok b := by
-  rcases refOfMap_shape h with rfl | ⟨t, rfl⟩
+  rcases refOfMap_shape_fixed h with rfl | ⟨t, rfl, hu⟩
   · have : "$ref" ∉ keysOf out := by
       intro hk
       simp only [keysOf, List.mem_map] at hk
@@ -946,7 +959,6 @@ theorem refOfMap_second {strict : Bool} {d0 b out d : List (String × Json)} (h 
       simp at this
     simp [refOfMap, lookupKey_generic_none hout hd this, pure, Except.pure]
   · have hm := hbsub ("$ref", .str t) (by simp)
-    have hu : urlString t = .ok t := (cleanM_iff.mp hclean _ hm).2.2.1 (.inl rfl) t rfl
     simp [refOfMap, lookupKey_generic_some hout hd hm (str_goAny_fixed t), hu, pure, Except.pure]
 
 theorem normRefable_second {j : Json} {b out : List (String × Json)} (h : normRefable j = .ok b)
@@ -1172,14 +1184,15 @@ theorem normReflect_second {rec : Rec} (hr : RecGood rec) (hT : tablesNodup Gen.
 /-! ### Schema -/
 
 theorem schemaURLOfMap_shape' {d out : List (String × Json)} (h : schemaURLOfMap d = .ok out) :
-    out = [] ∨ ∃ t, t ≠ "" ∧ out = [("$schema", .str t)] := by
+    out = [] ∨ ∃ t, t ≠ "" ∧ out = [("$schema", .str t)] ∧ urlString t = .ok t := by
   unfold schemaURLOfMap at h
   split at h
   · split at h
-    · simp only [pure, Except.pure, Except.ok.injEq] at h
+    · rename_i hus
+      simp only [pure, Except.pure, Except.ok.injEq] at h
       split at h
       · exact .inl h.symm
-      · rename_i hne; exact .inr ⟨_, by simpa using hne, h.symm⟩
+      · rename_i hne; exact .inr ⟨_, by simpa using hne, h.symm, urlString_idem hus⟩
     · simp only [pure, Except.pure, Except.ok.injEq] at h; exact .inl h.symm
     · simp [outOfModel] at h
   · simp only [pure, Except.pure, Except.ok.injEq] at h; exact .inl h.symm
@@ -1187,7 +1200,7 @@ theorem schemaURLOfMap_shape' {d out : List (String × Json)} (h : schemaURLOfMa
 theorem schemaURLOfMap_second {d0 b out d : List (String × Json)} (h : schemaURLOfMap d0 = .ok b)
     (hout : (keysOf out).Nodup) (hclean : CleanM out) (hd : normAnyMembers out = .ok d)
     (hbsub : ∀ m ∈ b, m ∈ out) (hown : ∀ m ∈ out, m.1 = "$schema" → m ∈ b) : schemaURLOfMap d = .ok b := by
-  rcases schemaURLOfMap_shape' h with rfl | ⟨t, hne, rfl⟩
+  rcases schemaURLOfMap_shape' h with rfl | ⟨t, hne, rfl, hu⟩
   · have : "$schema" ∉ keysOf out := by
       intro hk
       simp only [keysOf, List.mem_map] at hk
@@ -1196,7 +1209,6 @@ theorem schemaURLOfMap_second {d0 b out d : List (String × Json)} (h : schemaUR
       simp at this
     simp [schemaURLOfMap, lookupKey_generic_none hout hd this, pure, Except.pure]
   · have hm := hbsub ("$schema", .str t) (by simp)
-    have hu : urlString t = .ok t := (cleanM_iff.mp hclean _ hm).2.2.1 (.inr rfl) t rfl
     simp [schemaURLOfMap, lookupKey_generic_some hout hd hm (str_goAny_fixed t), hu, pure, Except.pure, hne]
 
 /-- "not one of the names `Schema.UnmarshalJSON` deletes from the generic map" -/
@@ -1948,7 +1960,7 @@ theorem normNamed_second {rec : Rec} (hr : RecGood rec) (n : String) {v r : Json
                   (perm_nodup_keys hperm (keysSorted_nodup hsorted))
                   (fun m hm => by
                     obtain ⟨x, _, _, hx⟩ := mapMembersR_mem ms ys hys m (hperm.mem_iff.mp hm)
-                    exact hr.idem _ _ _ hx (hcm m hm).2.2.2)
+                    exact hr.idem _ _ _ hx (hcm m hm).2.2)
                 have : ys' = ys := sorted_ext e2 hsorted (fun m => by rw [e3 m]; exact hperm.mem_iff)
                 subst this
                 simp [normSchemaProperties, e1, bind, Except.bind, pure, Except.pure]
@@ -2559,15 +2571,6 @@ theorem normF_idem (ok : IdemTablesOK) (fuel : Nat) (k : String) (j j₁ : Json)
 def nameOKB (k : String) : Bool :=
   keywordList.all (fun n => foldName k != foldName n || k == n) && (!isExtKey k || hasXPrefix k)
 
-def refTextOKB (k : String) (v : Json) : Bool :=
-  if k == "$ref" || k == "$schema" then
-    match v with
-    | .str t => (match urlString t with
-      | .ok t' => t' == t
-      | _ => false)
-    | _ => true
-  else true
-
 def notNull : Json → Bool
   | .null => false
   | _ => true
@@ -2583,7 +2586,7 @@ mutual
     | x :: xs => cleanB x && cleanLB xs
   def cleanMB : List (String × Json) → Bool
     | [] => true
-    | (k, v) :: rest => nameOKB k && notNull v && refTextOKB k v && cleanB v && cleanMB rest
+    | (k, v) :: rest => nameOKB k && notNull v && cleanB v && cleanMB rest
 end
 
 theorem nameOKB_sound {k : String} (h : nameOKB k = true) : NameOK k := by
@@ -2598,16 +2601,6 @@ theorem nameOKB_sound {k : String} (h : nameOKB k = true) : NameOK k := by
     rcases h.2 with h1 | h1
     · rw [hx] at h1; simp at h1
     · exact h1
-
-theorem refTextOKB_sound {k : String} {v : Json} (h : refTextOKB k v = true) : RefTextOK k v := by
-  intro hk t hv
-  subst hv
-  have hk' : (k == "$ref" || k == "$schema") = true := by
-    rcases hk with rfl | rfl <;> simp
-  simp only [refTextOKB, hk', if_true] at h
-  split at h
-  · rename_i t' heq; simp only [beq_iff_eq] at h; rw [heq, h]
-  · simp at h
 
 theorem notNull_sound {v : Json} (h : notNull v = true) : v ≠ .null := by
   intro hv; subst hv; simp [notNull] at h
@@ -2629,8 +2622,8 @@ mutual
     | [], _ => by simp [CleanM]
     | (k, v) :: rest, h => by
         simp only [cleanMB, Bool.and_eq_true] at h
-        obtain ⟨⟨⟨⟨h1, h2⟩, h3⟩, h4⟩, h5⟩ := h
-        exact ⟨nameOKB_sound h1, notNull_sound h2, refTextOKB_sound h3, cleanB_sound v h4, cleanMB_sound rest h5⟩
+        obtain ⟨⟨⟨h1, h2⟩, h4⟩, h5⟩ := h
+        exact ⟨nameOKB_sound h1, notNull_sound h2, cleanB_sound v h4, cleanMB_sound rest h5⟩
 end
 
 end SpecModel.Codec
